@@ -55,6 +55,42 @@ theorem order_irrelevant (nc : Nat) (thr : ℝ) (labels : Nat → Nat) (W : Nat 
   · rw [if_pos h, if_pos ((hord c).mp h)]
   · rw [if_neg h, if_neg (fun h' => h ((hord c).mpr h'))]
 
+/-- The repaired row reads ONLY the donor rows: two data matrices that agree on the donors of bad channel `c`
+(`imult`, the channels with a positive normalised weight) give the same repaired row — whatever the other
+rows hold, in particular the bad channels themselves (NaN, ±inf, …).  For EVERY scalar type in which `0 / s`
+is never positive (true in ℝ, see below, and of IEEE floats, where `0 / s ∈ {±0, NaN}`); the row-level
+statement `repairRow_congr` needs no hypothesis at all. -/
+theorem repair_depends_only_on_donors {α : Type} [Zero α] [Add α] [Mul α] [Div α] [LT α] [DecidableLT α]
+    (hdiv : ∀ s : α, ¬ (0 : α) < 0 / s)
+    (nc : Nat) (thr : α) (labels : Nat → Nat) (W : Nat → Nat → α) (data data' : Nat → Nat → α)
+    (c : Nat) (hc : c < nc) (hbad : labels c = 1 ∨ labels c = 2)
+    (hagree : ∀ j ∈ imult nc thr labels (W c) (weightSum nc thr labels (W c)), data j = data' j) :
+    interpolate nc thr labels W data c = interpolate nc thr labels W data' c := by
+  have hb : isBad labels c = true := by rcases hbad with h | h <;> simp [isBad, h]
+  have hmem := mem_badChannels.mpr ⟨hc, hb⟩
+  have h1 := interpolateOrd_eq hdiv nc thr labels W data (badChannels nc labels)
+    (fun i hi => (mem_badChannels.mp hi).2) data (fun _ _ => rfl) c
+  have h2 := interpolateOrd_eq hdiv nc thr labels W data' (badChannels nc labels)
+    (fun i hi => (mem_badChannels.mp hi).2) data' (fun _ _ => rfl) c
+  rw [interpolate, interpolate, h1, h2, if_pos hmem, if_pos hmem]
+  exact repairRow_congr nc thr labels (W c) data data' hagree
+
+/-- Over ℝ, with the donors spelled out: data that agree on the channels `j < nc` labelled neither 1 nor 2
+whose raw weight reaches the cut-off give the same repaired row. -/
+theorem repair_depends_only_on_donors_real (nc : Nat) (thr : ℝ) (labels : Nat → Nat) (W : Nat → Nat → ℝ)
+    (data data' : Nat → Nat → ℝ) (c : Nat) (hc : c < nc) (hbad : labels c = 1 ∨ labels c = 2)
+    (hagree : ∀ j, j < nc → labels j ≠ 1 → labels j ≠ 2 → thr ≤ W c j → data j = data' j) :
+    interpolate nc thr labels W data c = interpolate nc thr labels W data' c := by
+  apply repair_depends_only_on_donors real_hdiv nc thr labels W data data' c hc hbad
+  intro j hj
+  simp only [imult, List.mem_filter, List.mem_range, decide_eq_true_eq] at hj
+  rcases cutWeight_cases thr labels (W c) j with h0 | ⟨_, h2, h3⟩
+  · have := hj.2
+    unfold normWeight at this
+    rw [h0] at this; simp at this
+  · simp only [isBad, Bool.or_eq_false_iff, beq_eq_false_iff_ne] at h2
+    exact hagree j hj.1 h2.1 h2.2 h3
+
 /-- A bad channel that has at least one donor — a channel `j < nc` labelled neither 1 nor 2 whose raw weight
 reaches the cut-off — is replaced by a convex combination of such donors: coefficients `lam j ≥ 0`, non-zero
 only on donors (which are good or outside-brain channels: never dead/noisy, never a repaired one, and
